@@ -321,12 +321,16 @@ def check_C06(tier):
     # ... and in the implementation, including a table switched between calls (history aspect)
     sf = de.selfies_mod()
     smis = [s for s, al in lax[0].items() if any(k == "ok" for k, _ in al)]
+    # atoms whose explicit hydrogens alone exceed a capacity: strict=False must treat them under every table alike
+    hl = enc_gen_replay(rep, "hcaps_lax", ENC["hcaps"], "default", n - 2, strict=False, quick=quick, own=own,
+                        invariants=["StrictExact", "TwoOutcomes"])
+    smis += [s for s, al in hl.items() if any(k == "ok" for k, _ in al)]
     rng = random.Random(seed() + 6)
     rng.shuffle(smis)
     smis = smis[: (3000 if quick else 30000)]
     ref = {}
     try:
-        for tab in list(tabs.values()) + ["hypervalent", "default"]:
+        for tab in list(tabs.values()) + [{"C": 6, "N": 5, "O": 4, "B": 5, "Si": 1, "?": 1}, "hypervalent", "default"]:
             sf.set_semantic_constraints(tab if isinstance(tab, str) else dict(tab))
             for s in smis:
                 out = de.call_encoder(s, strict=False)[:2]
